@@ -25,6 +25,11 @@ BASE = {
     # dynamic list: three distinct children tick in cycle 2 (the per-cycle ring of modified children holds three entries)
     "dtsl": ("DTSL", {1: [cd.op("set", (0,), (1,)), cd.op("set", (1,), (1,))],
                       2: [cd.op("set", (0,), (2,)), cd.op("set", (2,), (2,)), cd.op("set", (3,), (3,))], 3: [cd.op("set", (4,), (1,))]}, 4),
+    # dictionary with its key-set probe: cycle 2 erases an absent key, cycle 3 is a value-only tick
+    "tsdk": ("TSD", {1: [cd.op("set", (1,), (1,))], 2: [cd.op("del", (), (7,))], 3: [cd.op("set", (1,), (2,))], 4: [cd.op("del", (), (1,))]}, 5),
+    # un-peered bundle input, child link 0 activated in cycle 1 and made passive in cycle 3, child 0 ticks again in cycle 4
+    "utsb": ("UTSB", {1: [cd.op("set", (0,), (1,)), cd.op("set", (1,), (1,))], 2: [cd.op("set", (0,), (2,))], 4: [cd.op("set", (0,), (3,))]}, 5,
+             {1: [cd.op("act", (), (0,))], 3: [cd.op("pas", (), (0,))]}),
     "tsw": ("TSW", {1: [cd.op("push", (), (1,))], 2: [cd.op("push", (), (2,))], 3: [cd.op("push", (), (3,))], 4: [cd.op("push", (), (4,))]}, 5),
 }
 
@@ -148,6 +153,25 @@ def c_dynamic_list_size(ev):                   # cycle 4 (idle): the list shrank
     o["sz"] -= 1
 
 
+def c_keyset_stamped_by_absent_erase(ev):   # cycle 2 erases a key that is not there: the key set claims a modification
+    o = ev[find(ev, "k", t=2)]["o"]
+    o["m"] = 1
+    o["lmt"] = 2
+
+
+def c_keyset_lmt(ev):                       # cycle 3 (value-only tick): the key set's last-modified-time moved
+    ev[find(ev, "k", t=3)]["o"]["lmt"] = 3
+
+
+def c_unpeered_parent_misses_child_tick(ev):   # cycle 4: child 0 ticks through a link that was made passive; the parent does not follow
+    o = ev[probe(ev, 4)]["o"]
+    o["m"] = 0
+    o["lmt"] = 2
+    o["mi"] = []
+    o["dv"] = []
+    ev[probe(ev, 4)]["cap"] = []
+
+
 def c_window_order(ev):
     o = ev[probe(ev, 4)]["o"]
     o["v"] = list(reversed(o["v"]))
@@ -213,6 +237,9 @@ CORRUPTIONS = [
     ("tsbi", "CollTrace", "child of an invalidated bundle valid again without a write", c_child_survives_invalidation, "C04.valid_after_invalidation@consumer.child.TS"),
     ("dtsl", "CollTrace", "dynamic list: drop one of three modified children", c_dynamic_list_drops_modified_child, "C05.value_is_not_previous_plus_delta@consumer."),
     ("dtsl", "CollTrace", "dynamic list shrinks", c_dynamic_list_size, "C05.list_size_is_not_the_net_effect_of_the_mutations"),
+    ("tsdk", "CollTrace", "key set modified by an erase of an absent key", c_keyset_stamped_by_absent_erase, "C04.modified_true_without_write@consumer.keyset"),
+    ("tsdk", "CollTrace", "key set last-modified-time moved by a value tick", c_keyset_lmt, "C04.last_modified_time_is_not_the_latest_write_cycle@consumer.keyset"),
+    ("utsb", "CollTrace", "un-peered parent misses the tick of a passivated child link", c_unpeered_parent_misses_child_tick, "C04.parent_not_modified_with_child@consumer.root.TSB"),
     ("tsw", "CollTrace", "window order reversed", c_window_order, "C05.window_is_not_last_n_pushes"),
     ("tsw", "CollTrace", "window all_valid below the minimum count", c_window_valid_early, "C05.window_valid_before_min_count"),
     ("tss", "RecordReplayTrace", "change a replayed delta", c_replayed_delta, "C20.replayed_delta_differs"),
@@ -227,7 +254,12 @@ CORRUPTIONS = [
 
 def main():
     hg.build(("coll",))
-    cases = {k: cd.Case(k, shape, cyc, end, 2, not cd.Case(k, shape, cyc, end, 2, True, "x").has_inv, "selftest") for k, (shape, cyc, end) in BASE.items()}
+    cases = {}
+    for k, spec in BASE.items():
+        shape, cyc, end = spec[:3]
+        act = spec[3] if len(spec) > 3 else None
+        rr = shape != "UTSB" and not cd.Case(k, shape, cyc, end, 2, True, "x").has_inv
+        cases[k] = cd.Case(k, shape, cyc, end, 2, rr, "selftest", activity=act)
     names = list(cases)
     traces = hg.run_driver("coll", [cases[k].scn for k in names])
     for k, tr in zip(names, traces):
